@@ -27,6 +27,10 @@ impl<H: Hal, T: Transport> VirtIO9p<H, T> {
     pub fn new(mut transport: T) -> Result<Self> {
         let features = transport.begin_init(SUPPORTED_FEATURES);
 
+        // Read the mount tag before the queue is set up, so that a failure can't leave the device
+        // live on a queue whose memory is being freed.
+        let mount_tag = read_mount_tag(&transport)?;
+
         let queue = VirtQueue::new(
             &mut transport,
             QUEUE,
@@ -35,8 +39,6 @@ impl<H: Hal, T: Transport> VirtIO9p<H, T> {
             features.contains(Feature::ACCESS_PLATFORM),
         )?;
         transport.finish_init();
-
-        let mount_tag = read_mount_tag(&transport)?;
 
         Ok(Self {
             transport,
